@@ -71,6 +71,98 @@ def run_C20(ctx, R):
         R.extend(r)
 
 
+def _reach(units, entries):
+    from .facts import call_graph, qname
+    allu = list(units.values())
+    g = call_graph(allu)
+    seen = set()
+    work = []
+    for u in allu:
+        for fn in u.function_list:
+            if fn.name in entries:
+                k = qname(u, fn)
+                seen.add(k)
+                work.append(k)
+    missing = [e for e in entries if not any(e in u.functions for u in allu)]
+    if missing:
+        raise AnalysisBroken('entry point(s) %s not found' % missing)
+    while work:
+        x = work.pop()
+        for y in g.get(x, ()):
+            if y not in seen:
+                seen.add(y)
+                work.append(y)
+    return {k.split('::')[-1] for k in seen}
+
+
+def _scoped(ctx, R, rule, entries, min_obs, configs=None):
+    """Run rule on each configuration, keep the obligations that concern functions reachable from the
+    property's entry points; the floor is on the number kept."""
+    for cfg in (configs or ctx.configs()):
+        units = ctx.units(cfg)
+        scope = _reach(units, entries)
+        r = Results(config=cfg)
+        rule(units, r)
+        kept = [o for o in r.obs if o.function in scope]
+        R.obs.extend(kept)
+        R.notes.extend(r.notes)
+        R.floor(kept[0].rule if kept else rule.__name__.upper(), 'obligations in scope of %s' % sorted(entries)[:3],
+                len(kept), min_obs)
+
+
+C15_ENTRIES = {'cJSONUtils_GetPointerCaseSensitive', 'cJSONUtils_GetPointer', 'cJSONUtils_FindPointerFromObjectTo'}
+C16_ENTRIES = {'cJSONUtils_ApplyPatchesCaseSensitive', 'cJSONUtils_ApplyPatches'}
+C17_ENTRIES = {'cJSONUtils_GeneratePatchesCaseSensitive', 'cJSONUtils_GeneratePatches', 'cJSONUtils_AddPatchToArray'}
+C18_ENTRIES = {'cJSONUtils_MergePatchCaseSensitive', 'cJSONUtils_MergePatch',
+               'cJSONUtils_GenerateMergePatchCaseSensitive', 'cJSONUtils_GenerateMergePatch'}
+C19_ENTRIES = {'cJSONUtils_SortObjectCaseSensitive', 'cJSONUtils_SortObject'}
+
+
+def run_C15(ctx, R):
+    from .rules import tab, out
+    _scoped(ctx, R, tab.tab8, C15_ENTRIES, 1)
+    _per_config(ctx, R, tab.tab9)
+    _scoped(ctx, R, tab.tab11, C15_ENTRIES, 3)
+    _scoped(ctx, R, out.out5, C15_ENTRIES | {'cJSONUtils_GeneratePatches'}, 3)
+    _scoped(ctx, R, out.out7, C15_ENTRIES, 4)
+
+
+def run_C16(ctx, R):
+    from .rules import tab, lst, out
+    _per_config(ctx, R, tab.tab12)
+    _per_config(ctx, R, tab.tab10)
+    _scoped(ctx, R, tab.tab11, C16_ENTRIES, 25)
+    _scoped(ctx, R, tab.tab8, C16_ENTRIES, 1)
+    _per_config(ctx, R, tab.tab9)
+    _scoped(ctx, R, lst.lst1, C16_ENTRIES, 6)
+    _scoped(ctx, R, out.out5, C16_ENTRIES, 3)
+    _scoped(ctx, R, out.out6, C16_ENTRIES, 4)
+
+
+def run_C17(ctx, R):
+    from .rules import tab, lst, out
+    _scoped(ctx, R, out.out7, C17_ENTRIES, 6)
+    _per_config(ctx, R, tab.tab9)
+    _scoped(ctx, R, out.out5, C17_ENTRIES, 3)
+    _scoped(ctx, R, lst.lst1, C17_ENTRIES, 1)
+    _per_config(ctx, R, lst.lst5)
+    _scoped(ctx, R, tab.tab11, C17_ENTRIES, 10)
+
+
+def run_C18(ctx, R):
+    from .rules import tab, lst
+    _scoped(ctx, R, tab.tab11, C18_ENTRIES, 15)
+    _scoped(ctx, R, lst.lst1, C18_ENTRIES, 3)
+    _per_config(ctx, R, lst.lst5)
+
+
+def run_C19(ctx, R):
+    from .rules import tab, lst
+    _per_config(ctx, R, lst.lst1)
+    _per_config(ctx, R, lst.lst5)
+    _scoped(ctx, R, tab.tab11, C19_ENTRIES, 4)
+
+
 PROPERTIES = {
     'C14': {
         'run': run_C14,
@@ -104,6 +196,66 @@ PROPERTIES = {
             "have no conflicting accesses other than the documented globals.",
         'not_decided': ['thread safety of user hooks and of libc itself (assumed)',
                         'data races through trees deliberately shared by the caller'],
+    },
+    'C15': {
+        'run': run_C15, 'modules': ['utils'],
+        'explanation':
+            "Structural necessary conditions of RFC 6901 resolution and of pointer construction, on every function "
+            "reachable from the pointer entry points. TAB8: every two-sided range test with literal bounds bounds one and "
+            "the same element (the array-index digit loop). TAB9: the four escape tables (encoder, encoded-length, "
+            "in-place decoder, comparing tokeniser) are extracted from the code and must agree with each other and "
+            "with RFC 6901 (~0<->~, ~1<->/). TAB11: the case_sensitive flag is passed unchanged to every callee that "
+            "takes one and no case-folding function is reachable while it is true. OUT7: every block filled with a "
+            "pointer string is sized, term by term (strlen / encoded length of the same key / 20 digits / literals / "
+            "terminator), for what sprintf/encode/strcat write. OUT5: the encoder's write cursor leaves no gap. "
+            "Decides these clauses, not the resolution semantics as a whole.",
+        'not_decided': ['RFC 6901 resolution as a function of (document, pointer): which node is returned',
+                        "the 'text not starting with / resolves to the root' defect named in the property (a missing "
+                        'comparison with no structural signature)', 'size_t overflow of the decoded index',
+                        'read bounds of the tokenisers (BND3, planned)'],
+    },
+    'C16': {
+        'run': run_C16, 'modules': ['utils'],
+        'explanation':
+            "Survival and table clauses of patch application on every function reachable from cJSONUtils_ApplyPatches*. "
+            "TAB12: every payload field (valuestring/child/value*) of a node looked up in the caller-supplied patch "
+            "document is used only under the matching cJSON_Is* test of that node. TAB10: every patch_operation "
+            "enumerator is decoded from exactly its RFC 6902 name and tested in apply_patch. TAB11: case flag "
+            "propagation (detach, lookup, compare, sort). TAB9/OUT5/OUT6: the in-place key decoder agrees with the other "
+            "pointer tables, leaves no unwritten byte behind its write cursor and never writes ahead of its read "
+            "cursor. LST1: every mutator that stores a child pointer restores the first child's back link (the test "
+            "operation sorts both operands). TAB8: index digit test.",
+        'not_decided': ['RFC 6902 results (which document results, which status)', "'move into own child' refusal",
+                        'leak freedom of apply_patch on every exit (OWN2, planned)'],
+    },
+    'C17': {
+        'run': run_C17, 'modules': ['utils'],
+        'explanation':
+            "Path construction and input preservation clauses of patch generation. OUT7: each path buffer (compose_patch, "
+            "create_patches array and object arms) is sized for what is written, with the encoded length taken of the "
+            "same key that is encoded and the key appended exactly where the text so far ends. TAB9/OUT5: escape tables "
+            "and gap-free encoding. LST1+LST5: sort_object (run on both inputs) restores the tail link and sort_list "
+            "stores only next/prev and calls only itself and the comparator, so inputs are merely re-linked. TAB11: "
+            "the flag reaches sort and compare.",
+        'not_decided': ['that applying the generated patch yields the target; emptiness iff equal; array index arithmetic'],
+    },
+    'C18': {
+        'run': run_C18, 'modules': ['utils'],
+        'explanation':
+            "TAB11: on every function reachable from the four merge-patch entry points the case_sensitive flag is passed "
+            "unchanged (never a constant, never through a case-folding public entry point) at every nesting level. "
+            "LST1/LST5: generation sorts both inputs through sort_object, which restores the tail link and only re-links.",
+        'not_decided': ['the RFC 7396 result itself (null deletes, non-object replaces, recursion) - semantic, not '
+                        'approximated', 'release of the detached member on every path (OWN2, planned)'],
+    },
+    'C19': {
+        'run': run_C19, 'modules': ['utils'],
+        'explanation':
+            "The 'healthy tree afterwards' and 'same nodes' sentences. LST1: every function of both units that stores a "
+            "non-null child pointer also stores the first child's prev (sort_object included; every internal sorter goes "
+            "through sort_object: LST5). LST5: sort_list assigns only next/prev, allocates and releases nothing, calls "
+            "only itself and compare_strings. TAB11: pre-check and merge use the comparator with the caller's flag.",
+        'not_decided': ['sortedness, permutation (no node lost in the merge), idempotence: depend on the merge loop values'],
     },
 }
 
